@@ -1,7 +1,7 @@
 (* C14 -- the statements exported to Props/C14.v *)
 From Coq Require Import String.
 From Coq Require Import List QArith Bool Arith Lia Lqa Sorted.
-From QV Require Import Model.Fill Spec.FillSpec Proofs.FillStep Proofs.FillGrid Proofs.FillMain.
+From QV Require Import Model.Fill Spec.FillSpec Proofs.FillStep Proofs.FillGrid Proofs.FillMain Proofs.FillWhile.
 Import ListNotations.
 Open Scope Q_scope.
 
@@ -31,8 +31,16 @@ Proof.
   repeat split; auto. intros. eapply rows_pointwise; eauto.
 Qed.
 
+Lemma resample_pointwise_v1 tol ps :
+  inputs_okb_v1 tol ps = true -> resample_statement get_full_coeffs_v1 tol ps.
+Proof.
+  intros H. destruct (coeffs_ok_v1 _ _ H) as [full [rows [Hf [Hr HF]]]].
+  exists full, rows. destruct (Forall2_rows_shape _ _ _ HF) as [S1 S2].
+  repeat split; auto. intros. eapply rows_pointwise; eauto.
+Qed.
+
 Lemma resample_pointwise_v0 tol ps :
-  inputs_okb tol ps = true -> forallb no_tail_sampleb ps = true ->
+  inputs_okb_v1 tol ps = true -> forallb no_tail_sampleb ps = true ->
   resample_statement get_full_coeffs_v0 tol ps.
 Proof.
   intros H Hg. destruct (coeffs_ok_v0 _ _ H Hg) as [full [rows [Hf [Hr HF]]]].
@@ -77,7 +85,7 @@ Definition leak_input : list pulse :=
     mkPulse (Some [0; 1; 2; 3]) (CArr [5; 6; 7]) ].
 
 Lemma leak_v0 :
-  inputs_okb leak_tol leak_input = true /\
+  inputs_okb_v1 leak_tol leak_input = true /\
   exists full rows p row,
     get_full_tlist leak_tol leak_input = Some full /\
     get_full_coeffs_v0 leak_tol leak_input = Some rows /\
@@ -89,5 +97,28 @@ Proof.
   split; [vm_compute; reflexivity|].
   exists [0; 1; 2; 3], [[1; 2; 0; 0]; [5; 6; 7; 0]],
     (mkPulse (Some [0; 1]) (CArr [1; 2])), [1; 2; 0; 0].
+  repeat split; vm_compute; reflexivity.
+Qed.
+
+(* the one-step advance (v1): a pulse grid that repeats a time point -- the zero-duration instruction
+   that a spin-chain rotation by angle 0 compiles to -- shifts all later coefficients by one slot *)
+Definition zero_dur_input : list pulse :=
+  [ mkPulse (Some [0; 1 # 8; 1 # 8; 1 # 4]) (CArr [1; 0; 1]) ].
+
+Lemma zero_duration_v1 :
+  inputs_okb leak_tol zero_dur_input = true /\
+  exists full rows p row,
+    get_full_tlist leak_tol zero_dur_input = Some full /\
+    get_full_coeffs_v1 leak_tol zero_dur_input = Some rows /\
+    nth_error zero_dur_input 0 = Some p /\ nth_error rows 0 = Some row /\
+    nth_error full 1 = Some (1 # 8) /\ nth_error full 2 = Some (1 # 4) /\
+    (* on [1/8, 1/4) the pulse's step function is 1 (third sample), the one-step loop gives 0 *)
+    pulse_fn p (1 # 8) = 1 /\ nth_error row 1 = Some 0 /\
+    (* the repaired loop *)
+    get_full_coeffs leak_tol zero_dur_input = Some [[1; 1; 0]].
+Proof.
+  split; [vm_compute; reflexivity|].
+  exists [0; 1 # 8; 1 # 4], [[1; 0; 1]],
+    (mkPulse (Some [0; 1 # 8; 1 # 8; 1 # 4]) (CArr [1; 0; 1])), [1; 0; 1].
   repeat split; vm_compute; reflexivity.
 Qed.
